@@ -36,7 +36,13 @@ VARIABLE l
 (* The resource bound of the property *)
 
 MinNat(a, b) == IF a < b THEN a ELSE b
-BoundDigits(len) == NatDigits(67108864 + 4096 * MinNat(len, 400000))
+\* THE BUDGETS.  Memory: M(n) = 64 MiB + min(4096 n, 1 GiB) + 32 n bytes, for a single request and for the live total
+\* (one deflate stage may expand 1032 times and its output vector is held about three times over while it grows -
+\* hence 4096 n for small inputs; beyond 1 GiB of such credit 32 bytes per input byte, several times what the legal
+\* corpus keeps per byte when loaded).  Time: T(n) = 1.5 s + 0.25 us x n, measured in the worker, re-measured alone
+\* before it counts ("slow"); the legal corpus loads at under 0.1 us per byte.
+M(len) == 67108864 + MinNat(4096 * MinNat(len, 300000), 1073741824) + 32 * MinNat(len, 20000000)
+BoundDigits(len) == NatDigits(M(len))
 TwoTo46 == <<7, 0, 3, 6, 8, 7, 4, 4, 1, 7, 7, 6, 6, 4>>
 
 \* a refused request that an ordinary machine would have granted and that is out of proportion to the input
@@ -46,10 +52,11 @@ BigRequest(rec) ==
     /\ DigitsLE(rec.refused, TwoTo46)
 
 \* live memory at its peak, out of proportion to the input (many small requests add up)
-PeakBoundDigits(len) == NatDigits(67108864 + 8192 * MinNat(len, 200000))
+PeakBoundDigits(len) == NatDigits(M(len))
 BigPeak(rec) == rec.peak # <<>> /\ ~DigitsLE(rec.peak, PeakBoundDigits(rec.len))
 
-Acceptable(rec) == rec.kind \in {"ok", "err"} /\ ~BigRequest(rec) /\ ~BigPeak(rec)
+\* capped: the worker's allocator had to refuse a request because the live total would have passed M(len)
+Acceptable(rec) == rec.kind \in {"ok", "err"} /\ ~BigRequest(rec) /\ ~BigPeak(rec) /\ ~rec.capped
 
 -----------------------------------------------------------------------------
 (* Naming a violation *)
@@ -132,15 +139,22 @@ Where(rec) ==
     ELSE IF rec.kind = "stackoverflow" THEN (IF rec.nest # <<>> THEN "nest." \o JoinKinds(rec.nest)
                                              ELSE IF rec.rep # "" THEN rec.rep ELSE "unclassified")
     ELSE IF rec.kind = "allocabort" THEN
-         (IF Len(rec.refused) <= 6 THEN (IF rec.wzero THEN "exhausted.W000" ELSE "exhausted")       \* many small requests until the cap
+         (IF rec.refused = <<>> \/ DigitsLE(rec.refused, BoundDigits(rec.len))                      \* the total, not one request
+          THEN (IF rec.wzero THEN "exhausted.W000" ELSE IF rec.rep # "" THEN "exhausted." \o rec.rep ELSE "exhausted")
           ELSE AskedFor(rec))
     ELSE IF rec.kind = "hang" THEN (IF rec.wzero THEN "W000" ELSE IF rec.nest # <<>> THEN "nest." \o JoinKinds(rec.nest)
                                     ELSE IF rec.rep # "" THEN rec.rep ELSE "unclassified")
     ELSE IF rec.kind \in {"ok", "err"} /\ BigRequest(rec) THEN AskedFor(rec)                         \* a refused big request, handled
-    ELSE IF rec.kind \in {"ok", "err"} THEN (IF rec.wzero THEN "W000" ELSE AskedFor(rec))             \* memory piled up
+    ELSE IF rec.kind \in {"ok", "err"} THEN (IF rec.wzero THEN "W000" ELSE IF rec.rep # "" THEN rec.rep ELSE AskedFor(rec))   \* memory piled up
+    ELSE IF rec.kind = "slow" THEN (IF rec.rep # "" THEN rec.rep ELSE "unclassified")                 \* over the time budget, twice
     ELSE "unclassified"
 
+\* an input of a named amplification shape (rep) that goes over the memory budget in whatever way - a refused request
+\* that was handled, the live total, an abort when the budget was reached - is one class: memory:<shape>
+MemoryShape(rec) == rec.rep # "" /\ ~rec.wzero /\ rec.kind \in {"ok", "err", "allocabort"}
 Class(rec) ==
+    IF MemoryShape(rec) THEN "C04:" \o rec.group \o ":memory:" \o rec.rep
+    ELSE
     "C04:" \o rec.group \o ":" \o (IF rec.kind \in {"ok", "err"} THEN (IF BigRequest(rec) THEN "bigalloc" ELSE "memory") ELSE rec.kind)
            \o ":" \o Where(rec)
 
